@@ -86,6 +86,7 @@ def shards(tier):
         for k in range(K):
             out.append(dict(fam=fam, k=k))
     out.append(dict(fam="leaves", k=0))
+    out.append(dict(fam="long", k=0))
     out += [dict(fam="mhist", k=k) for k in range(K)]
     return out
 
@@ -540,7 +541,36 @@ def run_leaves(tier, acc):
     acc.sample(dict(fam="leaves", kinds=kinds_all))
 
 
+def run_long(tier, acc):
+    """Long narrow tori: the tree already holds so many chips when a later
+    sink is routed that the router switches to its other neighbour search
+    (concentric hexagons around the sink), and the nearest tree chip lies
+    across the wrap-around edge.  Small radii (1, 2), every late sink in the
+    last columns / rows, both orientations."""
+    N = 50
+    for (w, h) in ((1, N), (N, 1), (2, N), (N, 2)):
+        long_axis = 1 if h == N else 0
+        for far in (24, 25):
+            for back in range(1, 5):
+                for radius in (1, 2):
+                    a = [0, 0]
+                    a[long_axis] = far
+                    for off in range(min(w, h)):
+                        b = [off, off]
+                        b[long_axis] = N - back
+                        case = dict(w=w, h=h, dead_chips=[], dead_links=[],
+                                    src=[0, 0], sinks=[a, b],
+                                    kinds=["cores", "cores"], radius=radius,
+                                    _connected=True, _fam="long")
+                        acc.nontrivial += 1
+                        run_case(case, acc, 0)
+    acc.sample(dict(fam="long", length=N))
+
+
 def run_shard(params, tier, acc):
+    if params["fam"] == "long":
+        run_long(tier, acc)
+        return
     if params["fam"] == "mhist":
         run_mhist(params["k"], tier, acc)
         return
